@@ -278,6 +278,109 @@ async fn zero_window_refusal(id: u64) -> Out {
     }
 }
 
+/// The stalled topic's publishers all live on one client connection (a publisher `duplicate()`d many times):
+/// that very client must still be able to use another topic through the same connection.
+async fn same_connection_publishers(n_pubs: usize, id: u64) -> Out {
+    let certs = match gen_certs() {
+        Ok(c) => c,
+        Err(e) => return Out::Inconclusive(format!("certs: {e}")),
+    };
+    let server = match start_server(&certs) {
+        Ok(s) => s,
+        Err(e) => return Out::Inconclusive(format!("server: {e}")),
+    };
+    let addr = server.addr;
+    let topic_a = format!("/stallc{}/topic-a", id);
+    let topic_b = format!("/freec{}/topic-b", id);
+    let tn_a = TopicName::try_from(topic_a.as_str()).unwrap();
+    let stall_conn = match raw_connect(addr, &certs).await {
+        Ok(c) => c,
+        Err(e) => return Out::Inconclusive(format!("raw connect: {e}")),
+    };
+    let (_stalled, r) = match stall_conn.open(Frame::RegisterSubscriber(SubscriberPayload { topic: tn_a.clone(), retention_policy: 0, operations: vec![] }), Duration::from_secs(10)).await {
+        Ok(x) => x,
+        Err(e) => return Out::Inconclusive(format!("stalled subscriber: {e}")),
+    };
+    if r != Some(Frame::Ok) {
+        return Out::Inconclusive(format!("stalled subscriber answered {:?}", r));
+    }
+    let x = match lib_client(&addr.to_string(), &certs, None).await {
+        Ok(c) => c,
+        Err(e) => return Out::Inconclusive(format!("connect: {e}")),
+    };
+    let first = match x.publisher(&topic_a).with_encoder(BytesCodec).open().await {
+        Ok(p) => p,
+        Err(e) => return Out::Inconclusive(format!("publisher: {e}")),
+    };
+    let mut pubs = vec![];
+    for _ in 1..n_pubs {
+        match first.duplicate().await {
+            Ok(p) => pubs.push(p),
+            Err(e) => return Out::Inconclusive(format!("duplicate: {e}")),
+        }
+    }
+    pubs.push(first);
+    // every publisher floods until it blocks
+    let chunk = vec![0x43u8; 64 * 1024];
+    let mut blocked = 0;
+    let mut total = 0u64;
+    let mut tasks = vec![];
+    for mut p in pubs {
+        let chunk = chunk.clone();
+        tasks.push(tokio::spawn(async move {
+            let mut n = 0u64;
+            let t0 = Instant::now();
+            while t0.elapsed() < Duration::from_secs(40) {
+                match tokio::time::timeout(Duration::from_millis(1500), p.send(chunk.clone())).await {
+                    Ok(Ok(())) => n += 1,
+                    Ok(Err(_)) => return (p, n, false),
+                    Err(_) => return (p, n, true),
+                }
+            }
+            (p, n, false)
+        }));
+    }
+    let mut keep = vec![];
+    for t in tasks {
+        if let Ok((p, n, b)) = t.await {
+            total += n;
+            if b {
+                blocked += 1;
+            }
+            keep.push(p);
+        }
+    }
+    if blocked < n_pubs {
+        return Out::Inconclusive(format!("precondition not reached: only {} of {} publishers blocked", blocked, n_pubs));
+    }
+    // topic B through the SAME client connection
+    let t1 = Instant::now();
+    let fut = async {
+        let mut sub = x.subscriber(&topic_b).with_decoder(BytesCodec).open().await.map_err(|e| format!("open subscriber on B: {e}"))?;
+        let mut publ = x.publisher(&topic_b).with_encoder(BytesCodec).open().await.map_err(|e| format!("open publisher on B: {e}"))?;
+        let mut n = 0u8;
+        loop {
+            n = n.wrapping_add(1);
+            publ.send(vec![b'B', n]).await.map_err(|e| format!("send on B: {e}"))?;
+            if let Ok(Some(Ok(_))) = tokio::time::timeout(Duration::from_millis(250), sub.next()).await {
+                return Ok::<(), String>(());
+            }
+        }
+    };
+    let res = tokio::time::timeout(Duration::from_secs(12), fut).await;
+    let took = t1.elapsed().as_millis();
+    server.stop();
+    drop(keep);
+    match res {
+        Ok(Ok(())) => Out::Held { b_roundtrip_ms: took, queued_ok: 0 },
+        Ok(Err(e)) => Out::Violated("other-topic-failed/same-connection".into(), format!("{} publisher streams of the stalled topic on one client connection ({} × 64 KiB accepted before they blocked); the same client could not use topic B: {}", n_pubs, total, e)),
+        Err(_) => Out::Violated(
+            "other-topic-blocked/same-connection".into(),
+            format!("{} publisher streams of the stalled topic on one client connection ({} × 64 KiB accepted before they all blocked); the same client did not complete open + round trip on topic B through that connection within 12 s", n_pubs, total),
+        ),
+    }
+}
+
 pub fn run(rep: &mut StageReport, tier: &str, _seed: u64) {
     let thorough = tier == "thorough";
     let mut plan: Vec<(usize, bool)> = if thorough {
@@ -332,6 +435,24 @@ pub fn run(rep: &mut StageReport, tier: &str, _seed: u64) {
             }
             Ok(Out::Inconclusive(why)) => rep.inconclusive(&why),
             Err(_) => rep.inconclusive("watchdog: zero-window scenario did not finish within 90 s"),
+        }
+    }
+    for (k, n_pubs) in (if thorough { vec![4usize, 10, 16] } else { vec![10usize] }).into_iter().enumerate() {
+        rep.evaluations += 1;
+        let rt = runtime(6);
+        let out = rt.block_on(async { tokio::time::timeout(Duration::from_secs(150), same_connection_publishers(n_pubs, 200 + k as u64)).await });
+        drop(rt);
+        match out {
+            Ok(Out::Held { b_roundtrip_ms, .. }) => {
+                rep.distinct.insert(crate::common::mix(0x5A3E, n_pubs as u64));
+                rep.sample(json!({"scenario": format!("{} blocked publisher streams of the stalled topic on one client connection; topic B used through the same connection", n_pubs), "topic_B_round_trip_ms": b_roundtrip_ms as u64}));
+            }
+            Ok(Out::Violated(sig, detail)) => {
+                let replay = write_replay("C17", &sig, n_pubs as u64, json!({"property": "C17", "detail": detail}));
+                rep.violation(Violation { signature: format!("C17/server/{}", sig), detail, replay });
+            }
+            Ok(Out::Inconclusive(why)) => rep.inconclusive(&why),
+            Err(_) => rep.inconclusive("watchdog: same-connection scenario did not finish within 150 s"),
         }
     }
     for p in repo_panics_since(mark) {
